@@ -57,6 +57,7 @@ var c14Cases = []c14Case{
 	{"writing-importer-variable-leaves-module", map[string]string{"m": "tick(\"m\")\ny := a\nfunc gety() { return y }"}, "import m\ny := b\ny = y + 1\nm.gety() + m.y", func(a, b int64) int64 { return 2 * a }, map[string]int{"m": 1}},
 	{"two-modules-same-names", map[string]string{"p": "tick(\"p\")\nv := a", "q": "tick(\"q\")\nv := b"}, "import p\nimport q\np.v - q.v", func(a, b int64) int64 { return a - b }, map[string]int{"p": 1, "q": 1}},
 	{"from-import-symbol", map[string]string{"m": "tick(\"m\")\nx := a + 5\nfunc f(p) { return p + x }"}, "from m import x, f as g\ng(x)", func(a, b int64) int64 { return 2 * (a + 5) }, map[string]int{"m": 1}},
+	{"from-import-one-name-under-two-aliases", map[string]string{"m": "tick(\"m\")\nx := a\ny := b"}, "from m import x as p, y as q, x as r\np + q + r", func(a, b int64) int64 { return 2*a + b }, map[string]int{"m": 1}},
 	{"from-import-and-import", map[string]string{"m": "tick(\"m\")\nx := a"}, "from m import x\nimport m\nx + m.x", func(a, b int64) int64 { return 2 * a }, map[string]int{"m": 1}},
 	{"quoted-path-import", map[string]string{"dir/m": "tick(\"dir/m\")\nx := a"}, "import \"dir/m\"\nm.x", func(a, b int64) int64 { return a }, map[string]int{"dir/m": 1}},
 	{"nested-module-imported-twice", map[string]string{"dir/m": "tick(\"dir/m\")\nk := a\nfunc bump() { k = k + 1 }\nfunc get() { return k }"}, "import \"dir/m\"\nimport \"dir/m\" as again\nm.bump()\nagain.bump()\nm.get() + again.get()", func(a, b int64) int64 { return 2 * (a + 2) }, map[string]int{"dir/m": 1}},
@@ -123,7 +124,7 @@ func HarnessC14ModulesRunOnceSharedSeparate() {
 	}
 	for mod, n := range imp.calls {
 		_ = mod
-		verifrt.Assert(n <= 1 || c.name == "from-import-symbol" || c.name == "from-import-and-import", c.name+":importer-asked-once-per-module")
+		verifrt.Assert(n <= 1 || c.name == "from-import-symbol" || c.name == "from-import-and-import" || c.name == "from-import-one-name-under-two-aliases", c.name+":importer-asked-once-per-module")
 	}
 }
 
